@@ -79,6 +79,15 @@ NEEDS = {
  'C09-skip-by-progress': 'two index growths overlapping (two old indexes queued) with non-zero progress on the oldest; remove/replace of a key living only in the middle index',
  'C04-pending-kept': 'an open iterator holding a fetched tree item while process_commits moves a commit touching that key range from the commit overlay to the log overlay',
  'C07-skip-set-if-present': 'three queued commits Set(k) / Dereference(k) to zero / Set(k); read after the first two were processed',
+ 'C01-hash-only-first-32-bytes': 'a uniform column with a non-zero salt and two keys longer than 32 bytes that share their first 32 bytes',
+ 'C02-replay-regrows-once': 'one record that grows the index twice (more than 128 keys sharing 18 leading bits), a crash before it is enacted, and the section for the newer table coming first in the record (hash-map order, about 1 in 2)',
+ 'C04-rebalance-from-right-child-slot': 'a tree of depth >= 2 where a removal merges two leaves under an inner node at minimum occupancy whose left sibling is absent or minimal and whose right sibling has at least 5 separators',
+ 'C05-drop-releases-wrong-overlay-slot': 'two hash columns: a column >= 1 finishes an index growth (its DropTable record is enacted) while column 0 has logged, not yet enacted chunks in an index of the same bit width, and a read of such a key in that window',
+ 'C06-backward-chain-link-rejected': 'a chained value (> 32 KiB) written into at least two recycled parts (an earlier chained value was removed or shrunk first), then read or overwritten',
+ 'C07-writer-search-skips-key-check': 'an index growth in progress, a migrated key dropping to zero, another key reusing its slot, and a further write on the gone key (or two keys sharing their first 8 bytes in a uniform column)',
+ 'C09-sse-mismatch-skips-group': 'x86_64, an index of 16 or 17 bits, and two live keys whose hashes agree in bits 0..48 and differ in bit 48 or 49 stored in the same aligned group of four slots, the searched one not first',
+ 'C13-short-log-file-gets-bogus-id': 'a log file of 1..8 bytes at open whose id bytes decode below the first id of the real logs, and an oldest real log that does not start at record 1',
+ 'C14-next-part-link-read-past-overlay': 'a chained value overwritten with a different number of parts and changed again (removed / overwritten) before the first record is enacted',
 }
 ORIGIN = {
  'C01-overlay-entry-keeps-old-tag': 'fired through existing rules (set-always-published) somewhat by accident of the entry API; the principled rule was added afterwards (commit-overlay entries are only inserted whole, tag and value together: C01 3w / C05 3ow)',
@@ -154,9 +163,18 @@ ORIGIN = {
  'C12-count-after-flush': 'rule added after this seed exposed the gap (truncation count sampled before the flush in the concurrent cleanup stage)',
  'C13-reseed-seq': 'rule added after this seed exposed the gap (last_enacted is stored only by enact_logs); the design only constrained the store inside enact_logs',
  'C15-wake-boundary': 'rule added after this seed exposed the gap (wake predicate is the complement of the wait predicate)',
+ 'C01-hash-only-first-32-bytes': 'rule added after this seed exposed the gap (C01 6m: what enters the key digest is the whole key)',
+ 'C02-replay-regrows-once': 'rule added after this seed exposed the gap (C02 15a / C13 46a: an action is validated against and applied to the table it names)',
+ 'C05-drop-releases-wrong-overlay-slot': 'rule added after this seed exposed the gap (C05 10a: overlay vectors are addressed by log_index() only)',
+ 'C06-backward-chain-link-rejected': 'rule added after this seed exposed the gap (C06 6a: no ordering test between a next-part link and the slot position)',
+ 'C07-writer-search-skips-key-check': 'rule added after this seed exposed the gap (C07 5 / C09 9 / C01 7: the writer-side index search compares the stored key tail)',
+ 'C13-short-log-file-gets-bogus-id': 'C16 2h caught it as written; the rule is now shared with C13 (6g-6i) and extended (header bytes obtained with read_exact only)',
+ 'C14-next-part-link-read-past-overlay': 'caught by the shadowed-reads rule of C01/C05 as written; the rule is now also run under C14 (8b)',
 }
 NOT_DETECTED = {
  'C06-tier-from-uncompressed-length': 'value-level: the size tier becomes Option::min of two searches, and None (= blob table) orders below Some(k); which tier index a length maps to is arithmetic over table sizes, outside the structural clauses claimed for C06 (layout constants, same-tier replacement, size-word bound). A rule pinning the shape of the tier computation ("exactly one search, no min/max") would also fire on harmless rewrites and was not written',
+ 'C04-rebalance-from-right-child-slot': 'value-level: the moved child pointer is stored one slot too far because a separator count is re-read after an append; which array slot a child lands in is index arithmetic inside Node::rebalance, outside the structural clauses claimed for C04 (ordering of the change set, iterator re-seek, sentinel handling, in-place result inspected)',
+ 'C09-sse-mismatch-skips-group': 'value-level: lane arithmetic of the vectorised page scan (which slots are revisited after a rejected candidate); this is the territory of C19, which is declared not applicable, and C09 claims only the lookup/growth protocol around the page scan',
 }
 S = tempfile.mkdtemp(prefix='pdb-seedmeta.')
 REPO = os.path.join(S, 'repo'); CACHE = os.path.join(S, 'cache')
